@@ -345,7 +345,7 @@ def record_c15(case):
     c = dict(case)
     reads = []
     for fmt in case["fmts"]:
-        text = emit(fmt, case["lines"])
+        text = emit_pdb(case["lines"], case.get("serial0", 0)) if fmt == "pdb" else emit(fmt, case["lines"])
         reads.append(_read_v1(fmt, text))
         reads.append(_read_v2(fmt, text))
     # v1 answers carry the model tag; C15 compares single-model structures only
@@ -921,6 +921,15 @@ def c15_tables(count, seed):
         elif cls == 9:
             ocn, absent = "?", True
         lines = build_backbone(rng, links, chains=rng.choice([1, 1, 2]), icn=icn, ocn=ocn, absent_occ=absent)
+        if k % 6 == 5:
+            # two free nucleotides, each a chain of its own, alike in number and name (label numbering restarts too)
+            rn = rng.choice(["G", "U", "DT"])
+            for q, ch in enumerate(("M", "N")):
+                res = {"ch": ch, "num": 1, "ic": "", "rn": rn, "het": 0, "lch": ch, "lnum": 1, "icn": icn, "ocn": ocn}
+                pos = (61000 + 23000 * q, 52000, -7000 * q)
+                for name, off in _NT.items():
+                    an = {"NB": "N9" if rn == "G" else "N1", "CB": "C4" if rn == "G" else "C2"}.get(name, name)
+                    lines.append(_line(1, res, an, _add(pos, off)))
         tables.append({"tid": f"b{seed}-{k}", "links": links, "icn": icn, "ocn": ocn, "lines": lines})
     return tables
 
@@ -1016,7 +1025,10 @@ def c15_cases(tables):
             fmts.append("cif")
         if not fmts:
             continue
-        cases.append({"id": t["tid"], "kind": "agree", "fmts": fmts, "lines": lines})
+        case = {"id": t["tid"], "kind": "agree", "fmts": fmts, "lines": lines}
+        if len(cases) % 3 == 1:
+            case["serial0"] = 9990      # the PDB rendering numbers its records from just below 10000 ("HETATM10000")
+        cases.append(case)
     return cases
 
 
